@@ -23,8 +23,8 @@ ASSUMPTIONS = [
     'FlatMie normalises partial overlaps by the largest overlap, which equals the layer width only on such grids',
     'partially overlapping layers are only required to carry between 0 and the declared magnitude',
 ]
-_Q = {'deck': 70, 'flat': 70, 'lee': 70}
-_T = {'deck': 1200, 'flat': 1200, 'lee': 1200}
+_Q = {'deck': 70, 'flat': 70, 'lee': 70, 'retune': 40}
+_T = {'deck': 1200, 'flat': 1200, 'lee': 1200, 'retune': 600}
 BUDGET = {
     'quick': [dict(name='boundscheck', env={'NUMBA_BOUNDSCHECK': '1'}, shards=4, cases=_Q)],
     'thorough': [dict(name='boundscheck', env={'NUMBA_BOUNDSCHECK': '1'}, shards=16, cases=_T)],
@@ -34,7 +34,8 @@ REQUIRED = dict(monitors=['deck-opaque-at-or-below-top', 'deck-zero-above', 'dec
                           'haze-partial-between', 'haze-depth>=clear', 'lee-wavelength-law'],
                 classes=['deck:inside', 'deck:above-range', 'deck:below-range', 'deck:on-layer-pressure',
                          'flat:set', 'flat:unset', 'flat:inverted', 'flat:outside', 'flat:below-1Pa',
-                         'lee:set', 'lee:unset', 'lee:inverted', 'lee:outside', 'nlayers:2'])
+                         'lee:set', 'lee:unset', 'lee:inverted', 'lee:outside', 'nlayers:2', 'retune:deck',
+                         'retune:flat', 'retune:lee', 'retune:evaluation-after-write'])
 
 
 def classify(f):
@@ -85,6 +86,35 @@ def sigma_of(snap, kls):
     return None
 
 
+def judge_deck(ctx, clear, cloudy, model_P, pc, **w):
+    """One evaluation of a model with a cloud deck at pc against the clear evaluation of the same atmosphere."""
+    sig = sigma_of(cloudy, 'SimpleCloudsContribution')
+    n = len(model_P)
+    # the model's own layer pressures decide membership (>=)
+    cloud = model_P >= pc
+    for i in range(n):
+        if cloud[i]:
+            ctx.check('deck-opaque-at-or-below-top', np.all(np.isposinf(sig[i])), layer=i, P=model_P[i], Pc=pc, **w)
+        else:
+            ctx.check('deck-zero-above', np.all(sig[i] == 0.0), layer=i, P=model_P[i], Pc=pc, **w)
+    # depth = documented integral with the cloud layers fully opaque and unchanged physics above
+    with np.errstate(divide='ignore'):
+        tau_clear = -np.log(clear['ret_trans'])
+    tau = tau_clear.copy()
+    tau[cloud] = np.inf
+    want = R.transit_depth(cloudy['Rp'], cloudy['Rs'], cloudy['z'], cloudy['dz'], tau)
+    atm = 2.0 * float(np.sum((cloudy['Rp'] + cloudy['z']) * cloudy['dz'])) / cloudy['Rs'] ** 2
+    ctx.close('deck-depth-equals-opaque-integral', cloudy['depth'], want, 1e-10, atol=1e-12 * atm, Pc=pc,
+              ncloud=int(cloud.sum()), **w)
+    ctx.check('deck-depth>=clear', np.all(cloudy['depth'] >= clear['depth'] * (1 - 1e-13)), **w)
+    for i in range(n):
+        if cloud[i]:
+            ctx.check('deck-layer-transmittance-zero', np.all(cloudy['ret_trans'][i] == 0.0), layer=i, **w)
+        else:
+            ctx.close('deck-unchanged-above', cloudy['ret_trans'][i], clear['ret_trans'][i], 1e-12, layer=i, **w)
+    return cloud
+
+
 def wl_deck(ctx, rng):
     spec = make_case(rng)
     lev, lay = levels_of(spec)
@@ -107,36 +137,12 @@ def wl_deck(ctx, rng):
     clear, cloudy, s2 = run_pair(ctx, spec, {'name': 'SimpleClouds', 'clouds_pressure': pc})
     if clear is None or cloudy is None:
         return
-    P = np.array(lay)
-    sig = sigma_of(cloudy, 'SimpleCloudsContribution')
-    n = spec['nlayers']
-    model_P = None
-    # the model's own layer pressures decide membership (>=); my recomputed grid agrees to rounding, so rows
-    # whose pressure is within 1e-12 of the cloud top are judged with the model's pressure
     mm = base.realise(s2)
     mm.build()
     model_P = np.array(mm.pressureProfile, dtype=float)
-    ctx.close('layer-pressure-is-geometric-mean', model_P, P, 1e-12)
-    cloud = model_P >= pc
-    for i in range(n):
-        if cloud[i]:
-            ctx.check('deck-opaque-at-or-below-top', np.all(np.isposinf(sig[i])), layer=i, P=model_P[i], Pc=pc)
-        else:
-            ctx.check('deck-zero-above', np.all(sig[i] == 0.0), layer=i, P=model_P[i], Pc=pc)
-    # depth = documented integral with the cloud layers fully opaque and unchanged physics above
-    with np.errstate(divide='ignore'):
-        tau_clear = -np.log(clear['ret_trans'])
-    tau = tau_clear.copy()
-    tau[cloud] = np.inf
-    want = R.transit_depth(cloudy['Rp'], cloudy['Rs'], cloudy['z'], cloudy['dz'], tau)
-    atm = 2.0 * float(np.sum((cloudy['Rp'] + cloudy['z']) * cloudy['dz'])) / cloudy['Rs'] ** 2
-    ctx.close('deck-depth-equals-opaque-integral', cloudy['depth'], want, 1e-10, atol=1e-12 * atm, Pc=pc, ncloud=int(cloud.sum()))
-    ctx.check('deck-depth>=clear', np.all(cloudy['depth'] >= clear['depth'] * (1 - 1e-13)))
-    for i in range(n):
-        if cloud[i]:
-            ctx.check('deck-layer-transmittance-zero', np.all(cloudy['ret_trans'][i] == 0.0), layer=i)
-        else:
-            ctx.close('deck-unchanged-above', cloudy['ret_trans'][i], clear['ret_trans'][i], 1e-12, layer=i)
+    ctx.close('layer-pressure-is-geometric-mean', model_P, np.array(lay), 1e-12)
+    cloud = judge_deck(ctx, clear, cloudy, model_P, pc)
+    n = spec['nlayers']
     ctx.sig('deck', spec['nlayers'], cls, round(spec['planet_mass'], 6), int(cloud.sum()))
     ctx.sample({'kind': 'deck', 'class': cls, 'nlayers': n, 'cloud_top_Pa': pc, 'layers_opaque': int(cloud.sum())})
 
@@ -199,6 +205,17 @@ def judge_haze(ctx, sig, lev, wlo, whi, magnitude, label, partial_rule):
                       layer=i, kind=label)
 
 
+def judge_flat(ctx, clear, hazy, lev, bottom, top, mix, cls, **w):
+    sig = sigma_of(hazy, 'FlatMieContribution')
+    wlo, whi = window_of(bottom, top, lev)
+    judge_haze(ctx, sig, lev, wlo, whi, np.full(sig.shape[1], mix), 'flat', None)
+    ctx.check('haze-grey', np.all(sig == sig[:, :1]), kind='flat', **w)
+    ctx.check('haze-depth>=clear', np.all(hazy['depth'] >= clear['depth'] * (1 - 1e-13)), kind='flat', **w)
+    if cls == 'outside':
+        ctx.close('haze-outside-range-changes-nothing', hazy['depth'], clear['depth'], 1e-13, kind='flat', **w)
+    return sig
+
+
 def wl_flat(ctx, rng):
     spec = make_case(rng)
     lev, lay = levels_of(spec)
@@ -209,16 +226,31 @@ def wl_flat(ctx, rng):
     clear, hazy, s2 = run_pair(ctx, spec, {'name': 'FlatMie', 'flat_mix_ratio': mix, 'flat_bottomP': bottom, 'flat_topP': top})
     if clear is None or hazy is None:
         return
-    sig = sigma_of(hazy, 'FlatMieContribution')
-    wlo, whi = window_of(bottom, top, lev)
-    judge_haze(ctx, sig, lev, wlo, whi, np.full(sig.shape[1], mix), 'flat', None)
-    ctx.check('haze-grey', np.all(sig == sig[:, :1]), kind='flat')
-    ctx.check('haze-depth>=clear', np.all(hazy['depth'] >= clear['depth'] * (1 - 1e-13)), kind='flat')
-    if cls == 'outside':
-        ctx.close('haze-outside-range-changes-nothing', hazy['depth'], clear['depth'], 1e-13, kind='flat')
+    sig = judge_flat(ctx, clear, hazy, lev, bottom, top, mix, cls)
     ctx.sig('flat', spec['nlayers'], cls, round(spec['planet_mass'], 6), round(math.log10(mix), 3))
     ctx.sample({'kind': 'FlatMie', 'class': cls, 'nlayers': spec['nlayers'], 'bottomP': bottom, 'topP': top,
                 'layers_with_extinction': int(np.sum(np.any(sig > 0, axis=1)))})
+
+
+def judge_lee(ctx, clear, hazy, lev, bottom, top, a, q, mix, cls, **w):
+    sig = sigma_of(hazy, 'LeeMieContribution')
+    wn = hazy['wn']
+    x = 2.0 * math.pi * a / (1e4 / wn)
+    qext = 5.0 / (q * x ** -4.0 + x ** 0.2)
+    magnitude = qext * math.pi * (a * 1e-6) ** 2 * mix
+    # unset bounds of this haze extend to the first / last LAYER pressure (it works on layer pressures): the window
+    # then still contains every layer centre, and no layer is wholly outside it
+    wlo, whi = window_of(bottom, top, lev)
+    judge_haze(ctx, sig, lev, wlo, whi, magnitude, 'lee', None)
+    nz = np.any(sig != 0, axis=1)
+    if np.any(nz):
+        ctx.close('lee-wavelength-law', sig[nz], np.tile(magnitude, (int(nz.sum()), 1)), 1e-10, radius=a, Q=q, **w)
+    else:
+        ctx.check('lee-wavelength-law', True)
+    ctx.check('haze-depth>=clear', np.all(hazy['depth'] >= clear['depth'] * (1 - 1e-13)), kind='lee', **w)
+    if cls == 'outside':
+        ctx.close('haze-outside-range-changes-nothing', hazy['depth'], clear['depth'], 1e-13, kind='lee', **w)
+    return sig, nz
 
 
 def wl_lee(ctx, rng):
@@ -234,29 +266,98 @@ def wl_lee(ctx, rng):
                                            'lee_mie_bottomP': bottom, 'lee_mie_topP': top})
     if clear is None or hazy is None:
         return
-    sig = sigma_of(hazy, 'LeeMieContribution')
-    wn = hazy['wn']
-    x = 2.0 * math.pi * a / (1e4 / wn)
-    qext = 5.0 / (q * x ** -4.0 + x ** 0.2)
-    magnitude = qext * math.pi * (a * 1e-6) ** 2 * mix
-    # unset bounds of this haze extend to the first / last LAYER pressure (it works on layer pressures): the window
-    # then still contains every layer centre, and no layer is wholly outside it
-    wlo, whi = window_of(bottom, top, lev)
-    judge_haze(ctx, sig, lev, wlo, whi, magnitude, 'lee', None)
-    nz = np.any(sig != 0, axis=1)
-    if np.any(nz):
-        ctx.close('lee-wavelength-law', sig[nz], np.tile(magnitude, (int(nz.sum()), 1)), 1e-10, radius=a, Q=q)
-    else:
-        ctx.check('lee-wavelength-law', True)
-    ctx.check('haze-depth>=clear', np.all(hazy['depth'] >= clear['depth'] * (1 - 1e-13)), kind='lee')
-    if cls == 'outside':
-        ctx.close('haze-outside-range-changes-nothing', hazy['depth'], clear['depth'], 1e-13, kind='lee')
+    sig, nz = judge_lee(ctx, clear, hazy, lev, bottom, top, a, q, mix, cls)
     ctx.sig('lee', spec['nlayers'], cls, round(spec['planet_mass'], 6), round(a, 6))
     ctx.sample({'kind': 'LeeMie', 'class': cls, 'nlayers': spec['nlayers'], 'bottomP': bottom, 'topP': top,
                 'radius_um': a, 'layers_with_extinction': int(nz.sum())})
 
 
-WORKLOADS = {'deck': wl_deck, 'flat': wl_flat, 'lee': wl_lee}
+def window_class(bottom, top, lev):
+    if bottom < 0 or top < 0:
+        return 'unset'
+    wlo, whi = min(bottom, top), max(bottom, top)
+    if wlo > lev[0] or whi < lev[-1]:
+        return 'outside'
+    return 'inverted' if bottom < top else 'set'
+
+
+def wl_retune(ctx, rng):
+    """The SAME model object, as in a retrieval: the cloud-top pressure / haze bounds, magnitude and particle size are
+    written through the fitting parameters (model[name] = value), no rebuild, and the model is evaluated again; every
+    evaluation is judged like a fresh one against the clear model of the same atmosphere."""
+    spec = make_case(rng)
+    lev, lay = levels_of(spec)
+    kind = ['deck', 'flat', 'lee'][rng.integers(0, 3)]
+    lo, hi = np.log10(lev[-1]), np.log10(lev[0])
+    clear = base.run_model(ctx, base.realise(spec))
+    if clear is None:
+        return
+
+    def draw_set_bounds():
+        b, t, c = draw_window(rng, lev, kind)
+        while b < 0 or t < 0:            # a written value is a pressure; "unset" exists only at construction
+            b, t, c = draw_window(rng, lev, kind)
+        return b, t, window_class(b, t, lev)
+    if kind == 'deck':
+        pc = float(10 ** rng.uniform(lo - 1, hi + 1))
+        extra = {'name': 'SimpleClouds', 'clouds_pressure': pc}
+    elif kind == 'flat':
+        bottom, top, cls = draw_window(rng, lev, 'flat')
+        mix = float(10 ** rng.uniform(-40, -22))
+        extra = {'name': 'FlatMie', 'flat_mix_ratio': mix, 'flat_bottomP': bottom, 'flat_topP': top}
+    else:
+        bottom, top, cls = draw_window(rng, lev, 'lee')
+        a, q, mix = float(10 ** rng.uniform(-3, 0.7)), float(rng.uniform(1, 100)), float(10 ** rng.uniform(-16, -6))
+        extra = {'name': 'LeeMie', 'lee_mie_radius': a, 'lee_mie_q': q, 'lee_mie_mix_ratio': mix,
+                 'lee_mie_bottomP': bottom, 'lee_mie_topP': top}
+    s2 = dict(spec, contributions=list(spec['contributions']) + [extra])
+    model = base.realise(s2)
+    ctx.observe('retune:' + kind, 'nlayers:%d' % spec['nlayers'])
+    ctx.feature(summary=world.spec_summary(spec), retune=kind)
+    rounds = int(rng.integers(2, 5))
+    for r in range(rounds):
+        if r > 0:
+            if kind == 'deck':
+                pc = float(10 ** rng.uniform(lo - 1, hi + 1))
+                model['clouds_pressure'] = pc
+            elif kind == 'flat':
+                what = rng.integers(0, 3)
+                if what in (0, 2):
+                    bottom, top, cls = draw_set_bounds()
+                    model['flat_bottomP'] = bottom
+                    model['flat_topP'] = top
+                if what in (1, 2):
+                    mix = float(10 ** rng.uniform(-40, -22))
+                    model['flat_mix_ratio'] = mix
+                cls = window_class(bottom, top, lev)
+            else:
+                what = rng.integers(0, 3)
+                if what in (0, 2):
+                    bottom, top, cls = draw_set_bounds()
+                    model['lee_mie_bottomP'] = bottom
+                    model['lee_mie_topP'] = top
+                if what in (1, 2):
+                    a, q, mix = float(10 ** rng.uniform(-3, 0.7)), float(rng.uniform(1, 100)), float(10 ** rng.uniform(-16, -6))
+                    model['lee_mie_radius'] = a
+                    model['lee_mie_q'] = q
+                    model['lee_mie_mix_ratio'] = mix
+                cls = window_class(bottom, top, lev)
+        snap = base.run_model(ctx, model, build=(r == 0))
+        if snap is None:
+            return
+        w = dict(evaluation=r, retune=kind)
+        if kind == 'deck':
+            judge_deck(ctx, clear, snap, np.array(model.pressureProfile, dtype=float), pc, **w)
+        elif kind == 'flat':
+            judge_flat(ctx, clear, snap, lev, bottom, top, mix, cls, **w)
+        else:
+            judge_lee(ctx, clear, snap, lev, bottom, top, a, q, mix, cls, **w)
+        if r > 0:
+            ctx.observe('retune:evaluation-after-write')
+    ctx.sig('retune', kind, spec['nlayers'], rounds, round(spec['planet_mass'], 6))
+
+
+WORKLOADS = {'deck': wl_deck, 'flat': wl_flat, 'lee': wl_lee, 'retune': wl_retune}
 
 LEVEL_TEXT = ('Exploration by runtime monitoring: paired executions of the real transmission model with and without a cloud '
               'deck / grey haze / Lee haze are tapped (each contribution\'s sigma after prepare(), per-layer transmittance, '
